@@ -308,6 +308,13 @@ func (db *DB) ReleaseHaltLock(ctx context.Context, id int64) {
 	TraceLog.Printf("[ReleaseHaltLock.Done(%s)]:", db.name)
 }
 
+// HoldsHaltLock returns true if the halt lock with the given identifier is
+// currently held locally on behalf of a remote node.
+func (db *DB) HoldsHaltLock(id int64) bool {
+	curr := db.haltLockAndGuard.Load().(*haltLockAndGuard)
+	return curr != nil && curr.haltLock.ID == id
+}
+
 // EnforceHaltLockExpiration unsets the HALT lock if it has expired.
 func (db *DB) EnforceHaltLockExpiration(ctx context.Context) {
 	curr := db.haltLockAndGuard.Load().(*haltLockAndGuard)
